@@ -117,6 +117,12 @@ def inDomain : TraitType → Val → Bool
     match strOf w with
     | some s => keys.contains s
     | none => false
+  -- Array: "dtype: the type of elements in the array", "shape: the required shape … wildcards and ranges"
+  | .array dt sh _, w =>
+    match w with
+    | .atom (.ndarray d s) =>
+      (match dt with | none => true | some t => d == t) && (match sh with | none => true | some sp => shapeOk sp s)
+    | _ => false
   -- TraitCoerceType: "of a specified Python type, or can be coerced to the specified type"
   | .coerceH ty, w => Val.isInst ty w
   -- TraitCastType: "its value is of the type associated with the TraitCastType instance"
@@ -195,6 +201,10 @@ def Conv : TraitType → Val → Val → Prop
     w = v ∨ (∃ s k, strOf v = some s ∧ vals.filter (fun k => s.isPrefixOf k) = [k] ∧ w = Val.ofStr k)
   | .prefixMap keys _, v, w =>
     w = v ∨ (∃ s k, strOf v = some s ∧ keys.filter (fun k => s.isPrefixOf k) = [k] ∧ w = Val.ofStr k)
+  -- the array itself; an array cast to the dtype; `asarray` of a list / tuple
+  | .array dt _ cast, v, w =>
+    w = v ∨ (∃ d s t, v = .atom (.ndarray d s) ∧ dt = some t ∧ E.canCast d t cast = true ∧ w = .atom (.ndarray t s)) ∨
+      (∃ d s, E.asarray v dt = .ok (d, s) ∧ w = .atom (.ndarray d s))
   -- "if the value can be coerced to the required type, then the coerced value is assigned"
   | .coerceH ty, v, w => (Val.isInst ty v ∧ w = v) ∨ E.cast ty v = .ok w
   | .castH ty, v, w => ConvCast E ty v w
